@@ -495,6 +495,9 @@ def _call_nonnull(v, modname, cls, depth=0):
     if not isinstance(v, ast.Call):
         return False
     f = v.func
+    if isinstance(f, ast.Attribute) and isinstance(f.value, ast.Constant) and isinstance(f.value.value, (str, bytes)) \
+            and f.attr in ('format', 'join', 'encode', 'decode', 'lower', 'upper', 'strip'):
+        return True              # 'text {}'.format(x) is a string
     if isinstance(f, ast.Name):
         if f.id[:1].isupper() or f.id == 'cls':
             return True
